@@ -301,6 +301,9 @@ func desc(t *T, o SchemaOpts, what string) string {
 	if !o.Descriptions || !chance(t, 40, "hasDesc") {
 		return ""
 	}
+	if chance(t, 25, "composedDesc") {
+		return rnd.ComposeString(t)
+	}
 	return pick(t, []string{"plain", "two\nlines", "with \"quotes\"", "  padded  ", "ünï", "back\\slash"}, "desc") + " " + what
 }
 
@@ -397,6 +400,9 @@ func RuntimeValue(t *T, s *model.Schema, ty model.TypeRef, depth int, asDefault 
 		}
 		return model.Float(rapid.SampledFrom([]float64{0.5, -1.25, 3.0, 1e10, 2.5e-3}).Draw(t, "float"))
 	case "String":
+		if chance(t, 35, "composedStr") {
+			return model.Str(rnd.ComposeString(t))
+		}
 		return model.Str(rapid.SampledFrom([]string{"", "s", "hello world", "q\"uote", "ünï", "a,b]c", "line\nbreak"}).Draw(t, "str"))
 	case "Boolean":
 		return model.Bool(chance(t, 50, "bool"))
@@ -405,6 +411,9 @@ func RuntimeValue(t *T, s *model.Schema, ty model.TypeRef, depth int, asDefault 
 			return model.Int(int64(intn(t, 0, 99, "id")))
 		}
 		return model.Str(rapid.SampledFrom([]string{"id1", "42", "x-y"}).Draw(t, "idstr"))
+	}
+	if chance(t, 25, "composedCustom") {
+		return model.Str(rnd.ComposeString(t))
 	}
 	return model.Str(rapid.SampledFrom([]string{"c1", "custom", ""}).Draw(t, "custom"))
 }
